@@ -82,7 +82,11 @@ def make_files(d, nf, R):
                 for ki, key in enumerate(KEYS):
                     kk = key.strip()
                     hdr.update(fitsgen.tan_header(1000 * f + 10 * idx + ki + 0.5, 7.0 + ki, key=kk, bottoms_up=bool(bu)))
-                h = fits.PrimaryHDU(data, header=hdr) if idx == 0 else fits.ImageHDU(data, header=hdr)
+                if idx > 0 and R.random() < 0.3:
+                    # a tile-compressed image extension (fpack): an image HDU like any other (lossless GZIP for float data)
+                    h = fits.CompImageHDU(data, header=hdr, compression_type="GZIP_1", quantize_level=0)
+                else:
+                    h = fits.PrimaryHDU(data, header=hdr) if idx == 0 else fits.ImageHDU(data, header=hdr)
                 hl.append(h)
                 image_idx.append(idx)
         p = os.path.join(d, "f%d.fits" % f)
